@@ -8,6 +8,7 @@ import PyamgV.Proofs.SorAdjoint
 import PyamgV.Proofs.Kaczmarz
 import PyamgV.Model.C02Cycle
 import PyamgV.Proofs.ExtRelaxRefine
+import PyamgV.Proofs.ExtComplexGsEnergy
 import Mathlib.Algebra.Module.Prod
 
 /-! # C02 — SPD problems: no multigrid cycle increases the energy norm of the error
@@ -192,5 +193,34 @@ restate py_gauss_seidel_fixed_point := PyamgV.pyGaussSeidel_fixed_point
 restate py_jacobi_fixed_point := PyamgV.pyJacobi_fixed_point
 /-- non-vacuity: all hypotheses of `py_gauss_seidel_nonexpansive` hold for the 3-point Poisson matrix -/
 restate example_py_gauss_seidel_nonexpansive := PyamgV.example_pyGaussSeidel_nonexp
+
+/-! ## complex Hermitian positive semidefinite problems (extension E5, Proofs/ExtComplex*.lean)
+
+Complex vectors are pairs `(Re, Im)`; `cip e u v` is the complex inner product as a pair, `cEnergy` the
+symmetric PSD real form `Re⟨u, A v⟩` on the realified space, `CNonExp` non-expansiveness of `⟨e, A e⟩`. -/
+
+/-- for Hermitian `A` the complex number `⟨w, A w⟩` is real and equals the energy of the realified form: the
+complex energy norm *is* the `EForm` energy norm all theorems of this file are about -/
+restate complex_energy_norm_same := PyamgV.cEnergy_en
+/-- Galerkin coarse operator of a Hermitian PSD operator with `R = Pᴴ` is Hermitian PSD -/
+restate complex_galerkin_hermitian_psd := PyamgV.cgalerkin_herm_psd
+/-- **cycle level, complex**: Hermitian PSD `A`, `R = Pᴴ`, Galerkin coarse operators, smoothers non-expansive in
+their level's complex energy norm, exact coarsest solve ⇒ every V/W/F(k) cycle is non-expansive in the complex
+energy norm (`cycle_nonexpansive_of_galerkin` through the bridge) -/
+restate complex_cycle_nonexpansive := PyamgV.ccycle_nonexp
+/-- the Gauss-Seidel row lemma over any field (no order needed) -/
+restate gs_row_residual_zero_any_field := PyamgV.gsRow_residual_zero_field
+/-- **complex Gauss-Seidel row**: one row update of the executable kernel model `K.gaussSeidel` over the
+Gaussian rationals zeroes the complex row residual (computed by the model's own `spmv`) -/
+restate complex_gs_row_residual_zero := PyamgV.crat_gaussSeidel_row_residual_zero
+restate complex_gs_row_residual_zero_parts := PyamgV.crat_gaussSeidel_row_residual_zero_parts
+/-- one row of the complex kernel loop never increases the complex energy of the error (Hermitian PSD matrix) -/
+restate complex_gs_row_energy := PyamgV.cgsRow_energy
+/-- a complex Gauss-Seidel sweep over any row list is a non-expansive smoother in the complex energy norm -/
+restate complex_gs_sweep_nonexpansive := PyamgV.cgsSweep_cnonexp
+/-- the same for the executable array kernel `K.gaussSeidel` over `CRat` -/
+restate complex_gs_array_kernel_nonexpansive := PyamgV.crat_gaussSeidel_array_nonexp
+/-- non-vacuity: all hypotheses hold for `[[2, i], [−i, 2]]` -/
+restate complex_example_gs_nonexpansive := PyamgV.ExC.example_cgsSweep_cnonexp
 
 end PyamgV.Props.C02
